@@ -9,6 +9,7 @@ package m
 import (
 	"context"
 	"hash"
+	"io"
 
 	digest "github.com/opencontainers/go-digest"
 	"sync"
@@ -87,11 +88,215 @@ func FmtErrorf(format string, a ...any) error {
 	return &Leaf{Msg: format}
 }
 
+// Sprintf implements the verbs a path- or name-building caller would use (%s %v %d %q %x %t %c %%)
+// over strings, byte slices, integers, booleans, errors and Stringers; width/precision flags are
+// ignored. Error constructors above stay opaque (their text is never asserted); Sprintf results may
+// be used as data, so they are computed.
+//
 //gosym:replace fmt.Sprintf
-func Sprintf(format string, a ...any) string { return format }
+func Sprintf(format string, a ...any) string {
+	out := make([]byte, 0, len(format)+16)
+	ai := 0
+	for i := 0; i < len(format); i++ {
+		c := format[i]
+		if c != '%' {
+			out = append(out, c)
+			continue
+		}
+		i++
+		for i < len(format) && (format[i] == '+' || format[i] == '-' || format[i] == '#' || format[i] == ' ' || format[i] == '.' || (format[i] >= '0' && format[i] <= '9')) {
+			i++
+		}
+		if i >= len(format) {
+			break
+		}
+		verb := format[i]
+		if verb == '%' {
+			out = append(out, '%')
+			continue
+		}
+		if ai >= len(a) {
+			out = append(out, "%!(MISSING)"...)
+			continue
+		}
+		out = appendArg(out, verb, a[ai])
+		ai++
+	}
+	return string(out)
+}
 
-//gosym:replace fmt.Sprint fmt.Sprintln
-func Sprint(a ...any) string { return "" }
+func appendInt(out []byte, x int64, base int) []byte {
+	if x == 0 {
+		return append(out, '0')
+	}
+	neg := x < 0
+	var u uint64
+	if neg {
+		u = uint64(-x)
+	} else {
+		u = uint64(x)
+	}
+	return appendUint(out, u, base, neg)
+}
+
+func appendUint(out []byte, u uint64, base int, neg bool) []byte {
+	if u == 0 {
+		return append(out, '0')
+	}
+	var tmp [64]byte
+	n := len(tmp)
+	for u > 0 {
+		n--
+		tmp[n] = "0123456789abcdef"[u%uint64(base)]
+		u /= uint64(base)
+	}
+	if neg {
+		n--
+		tmp[n] = '-'
+	}
+	return append(out, tmp[n:]...)
+}
+
+func appendArg(out []byte, verb byte, x any) []byte {
+	base := 10
+	if verb == 'x' {
+		base = 16
+	} else if verb == 'o' {
+		base = 8
+	}
+	switch t := x.(type) {
+	case string:
+		if verb == 'q' {
+			return append(append(append(out, '"'), t...), '"')
+		}
+		if verb == 'x' {
+			for i := 0; i < len(t); i++ {
+				out = append(out, "0123456789abcdef"[t[i]>>4], "0123456789abcdef"[t[i]&15])
+			}
+			return out
+		}
+		return append(out, t...)
+	case []byte:
+		if verb == 'x' {
+			for i := 0; i < len(t); i++ {
+				out = append(out, "0123456789abcdef"[t[i]>>4], "0123456789abcdef"[t[i]&15])
+			}
+			return out
+		}
+		return append(out, t...)
+	case error:
+		if t == nil {
+			return append(out, "<nil>"...)
+		}
+		return append(out, t.Error()...)
+	case interface{ String() string }:
+		return append(out, t.String()...)
+	case bool:
+		if t {
+			return append(out, "true"...)
+		}
+		return append(out, "false"...)
+	case int:
+		if verb == 'c' {
+			return append(out, byte(t))
+		}
+		return appendInt(out, int64(t), base)
+	case int64:
+		return appendInt(out, t, base)
+	case int32:
+		if verb == 'c' {
+			return append(out, byte(t))
+		}
+		return appendInt(out, int64(t), base)
+	case int16:
+		return appendInt(out, int64(t), base)
+	case int8:
+		return appendInt(out, int64(t), base)
+	case uint:
+		return appendUint(out, uint64(t), base, false)
+	case uint64:
+		return appendUint(out, t, base, false)
+	case uint32:
+		return appendUint(out, uint64(t), base, false)
+	case uint16:
+		return appendUint(out, uint64(t), base, false)
+	case uint8:
+		if verb == 'c' {
+			return append(out, t)
+		}
+		return appendUint(out, uint64(t), base, false)
+	case nil:
+		return append(out, "<nil>"...)
+	}
+	return append(out, "%!v(unsupported)"...)
+}
+
+//gosym:replace fmt.Sprint
+func Sprint(a ...any) string {
+	var out []byte
+	for _, x := range a {
+		out = appendArg(out, 'v', x)
+	}
+	return string(out)
+}
+
+//gosym:replace fmt.Sprintln
+func Sprintln(a ...any) string {
+	var out []byte
+	for i, x := range a {
+		if i > 0 {
+			out = append(out, ' ')
+		}
+		out = appendArg(out, 'v', x)
+	}
+	return string(append(out, '\n'))
+}
+
+// printing and logging have no effect on any property
+
+//gosym:replace fmt.Printf log.Printf log.Fatalf log.Panicf
+func Printf(format string, a ...any) {}
+
+//gosym:replace fmt.Println fmt.Print log.Println log.Print
+func Println(a ...any) {}
+
+//gosym:replace fmt.Fprintf
+func Fprintf(w io.Writer, format string, a ...any) (int, error) {
+	return w.Write([]byte(Sprintf(format, a...)))
+}
+
+//gosym:replace fmt.Fprintln
+func Fprintln(w io.Writer, a ...any) (int, error) { return w.Write([]byte(Sprintln(a...))) }
+
+//gosym:replace fmt.Fprint
+func Fprint(w io.Writer, a ...any) (int, error) { return w.Write([]byte(Sprint(a...))) }
+
+//gosym:replace time.Sleep
+func Sleep(d time.Duration) {}
+
+//gosym:replace time.Since
+func Since(t time.Time) time.Duration { return 0 }
+
+// AsTarget is an engine intrinsic: if err can be assigned to *target it stores it and reports true.
+func AsTarget(err error, target any) bool { return false }
+
+//gosym:replace errors.As github.com/pkg/errors.As
+func As(err error, target any) bool {
+	for err != nil {
+		if AsTarget(err, target) {
+			return true
+		}
+		if x, ok := err.(interface{ As(any) bool }); ok && x.As(target) {
+			return true
+		}
+		u, ok := err.(interface{ Unwrap() error })
+		if !ok {
+			return false
+		}
+		err = u.Unwrap()
+	}
+	return false
+}
 
 //gosym:replace errors.Is github.com/pkg/errors.Is
 func Is(err, target error) bool {
